@@ -198,7 +198,7 @@ struct SkelVisitor {
     /// parameter names of the function (an argument that is a parameter is `.count`)
     params: Vec<String>,
     /// private helper methods of the same `impl`, inlined when called on `self`
-    helpers: std::collections::HashMap<String, syn::Block>,
+    helpers: std::collections::HashMap<String, (Vec<String>, syn::Block)>,
     depth: usize,
 }
 
@@ -246,10 +246,14 @@ impl<'ast> Visit<'ast> for SkelVisitor {
                 for a in &m.args { self.visit_expr(a); }
                 let name = m.method.to_string();
                 if SKEL_CALLS.contains(&name.as_str()) { let a = self.arg(&m.args); self.out.push(format!("⟨.{}, {}⟩", camel(&name), a)); }
-                else if q(&m.receiver) == "self" && self.depth < 2 {
-                    if let Some(b) = self.helpers.get(&name).cloned() {
-                        // a private helper of the same impl: what it does counts as done here
+                else if ["self", "self.inner", "self.inner.inner_mut()", "self.inner.inner()"].contains(&q(&m.receiver).as_str()) && self.depth < 3 {
+                    if let Some((ps, b)) = self.helpers.get(&name).cloned() {
+                        // a private helper of the same impl, or a default method of the iterator traits: what it does counts as done here
                         let mut inner = SkelVisitor { helpers: self.helpers.clone(), depth: self.depth + 1, ..Default::default() };
+                        for (p, a) in ps.iter().zip(m.args.iter()) {
+                            let raw = q(a); let raw = raw.trim_start_matches('*').to_string();
+                            if self.params.contains(&raw) { inner.params.push(p.clone()); } else { inner.lets.insert(p.clone(), self.resolve(&raw)); }
+                        }
                         inner.visit_block(&b);
                         self.out.extend(inner.out);
                     }
@@ -266,7 +270,22 @@ impl<'ast> Visit<'ast> for SkelVisitor {
     }
 }
 
+fn fn_params(sig: &syn::Signature) -> Vec<String> {
+    sig.inputs.iter().filter_map(|a| match a { syn::FnArg::Typed(t) => match &*t.pat { syn::Pat::Ident(i) => Some(i.ident.to_string()), _ => Some("_".into()) }, _ => None }).collect()
+}
+
 fn skeleton(src: &mut Src, path: &str, owner: &str, func: &str, cfg_not_vmem: bool) -> Result<String, String> {
+    // default methods of the iterator traits that are not themselves skeleton actions: inlined where they are called
+    let mut trait_helpers = std::collections::HashMap::new();
+    if let Ok(tf) = src.file("src/iterators/iterator_trait.rs") {
+        for it in &tf.items { if let syn::Item::Trait(t) = it { if t.ident == "PrivateMRBIterator" || t.ident == "MRBIterator" {
+            for ti in &t.items { if let syn::TraitItem::Fn(f) = ti { if let Some(d) = &f.default {
+                let n = f.sig.ident.to_string();
+                let cfgd = f.attrs.iter().any(|a| a.path().is_ident("cfg"));
+                if !cfgd && !SKEL_CALLS.contains(&n.as_str()) && n != func { trait_helpers.insert(n, (fn_params(&f.sig), d.clone())); }
+            } } }
+        } } }
+    }
     let file = src.file(path)?;
     // pick the right cfg variant when there are two
     let mut blk = None;
@@ -284,6 +303,7 @@ fn skeleton(src: &mut Src, path: &str, owner: &str, func: &str, cfg_not_vmem: bo
     scan(&file.items, owner, func, cfg_not_vmem, &mut blk);
     let b = blk.ok_or(format!("fn `{func}` of `{owner}` not found in {path}"))?;
     let mut v = SkelVisitor::default();
+    v.helpers = trait_helpers;
     // parameters of the function and private helpers of the same impl / trait
     for it in &file.items { match it {
         syn::Item::Impl(i) => { let ty = &i.self_ty; let mut head = quote::quote!(#ty).to_string().replace(' ', "");
@@ -291,7 +311,7 @@ fn skeleton(src: &mut Src, path: &str, owner: &str, func: &str, cfg_not_vmem: bo
             if !head.contains(owner) { continue; }
             for ii in &i.items { if let syn::ImplItem::Fn(f) = ii {
                 if std::ptr::eq(&f.block, b) { v.params = f.sig.inputs.iter().filter_map(|a| match a { syn::FnArg::Typed(t) => match &*t.pat { syn::Pat::Ident(i) => Some(i.ident.to_string()), _ => None }, _ => None }).collect(); }
-                else if matches!(f.vis, syn::Visibility::Inherited) && !SKEL_CALLS.contains(&f.sig.ident.to_string().as_str()) { v.helpers.insert(f.sig.ident.to_string(), f.block.clone()); }
+                else if matches!(f.vis, syn::Visibility::Inherited) && !SKEL_CALLS.contains(&f.sig.ident.to_string().as_str()) { v.helpers.insert(f.sig.ident.to_string(), (fn_params(&f.sig), f.block.clone())); }
             } } }
         syn::Item::Trait(t) => { if t.ident != owner { continue; }
             for ti in &t.items { if let syn::TraitItem::Fn(f) = ti { if let Some(d) = &f.default {
@@ -388,23 +408,68 @@ fn store_kinds(src: &mut Src) -> Result<String, String> {
     Ok(o)
 }
 
-/// Normalised source text of a few tiny functions whose exact shape the model depends on.
+/// Integer literals occurring in a normalised text (tokens made of digits only, not part of an identifier or a type suffix).
+fn int_literals(t: &str) -> Vec<String> {
+    let cs: Vec<char> = t.chars().collect();
+    let mut out = vec![]; let mut i = 0;
+    while i < cs.len() {
+        if cs[i].is_ascii_digit() && (i == 0 || !(cs[i - 1].is_alphanumeric() || cs[i - 1] == '_')) {
+            let mut j = i; while j < cs.len() && (cs[j].is_ascii_digit() || cs[j] == '_') { j += 1; }
+            // skip a literal's type suffix
+            let mut k = j; while k < cs.len() && (cs[k].is_alphanumeric() || cs[k] == '_') { k += 1; }
+            out.push(cs[i..j].iter().collect()); i = k;
+        } else { i += 1; }
+    }
+    out
+}
+
+/// What the cell primitives do, recognised from their shape (any of the usual spellings); the text is kept as a comment.
+/// A body that is not recognised yields `false`, which the theorems that rely on the fact refuse.
 fn pins(src: &mut Src) -> Result<String, String> {
     let mut o = String::new();
     let cell = "src/ring_buffer/wrappers/unsafe_sync_cell.rs";
-    for (path, owner, func, lean) in [
-        (cell, "UnsafeSyncCell<T>", "check_zeroed", "pinCheckZeroed"),
-        (cell, "UnsafeSyncCell<T>", "take_inner", "pinTakeInner"),
-        (cell, "UnsafeSyncCell<T>", "inner_duplicate", "pinInnerDuplicate"),
-        (cell, "DropforUnsafeSyncCell<T>", "drop", "pinCellDrop"),
-        ("src/iterators/mod.rs", "", "copy_from_slice_unchecked", "pinCopyFromSlice"),
+    let mut text = std::collections::HashMap::new();
+    for (path, owner, func, key) in [
+        (cell, "UnsafeSyncCell<T>", "check_zeroed", "check_zeroed"),
+        (cell, "UnsafeSyncCell<T>", "take_inner", "take_inner"),
+        (cell, "UnsafeSyncCell<T>", "inner_duplicate", "inner_duplicate"),
+        (cell, "DropforUnsafeSyncCell<T>", "drop", "drop"),
+        ("src/iterators/mod.rs", "", "copy_from_slice_unchecked", "copy"),
     ] {
         let file = src.file(path)?;
         let f = find_fn(file, owner, func).ok_or(format!("fn `{func}` of `{owner}` not found"))?;
         let b = f.block;
         let t = quote::quote!(#b).to_string().replace(' ', "").replace('"', "'");
-        o.push_str(&format!("def {lean} : String := \"{t}\"\n"));
+        o.push_str(&format!("-- {key}: {t}\n"));
+        text.insert(key, (t, f.params.clone()));
     }
+    let has = |k: &str, w: &str| text[k].0.contains(w);
+    // check_zeroed: every one of the size_of::<T>() bytes is compared with 0, and nothing else decides
+    let cz = &text["check_zeroed"].0;
+    let only_zero_lits = int_literals(cz).iter().all(|l| l == "0");
+    let span_ok = cz.contains("size_of::<T>()") && !["size_of::<T>()-", "size_of::<T>()/", "size_of::<T>()>>", "size_of::<T>()%", "-size_of", "min("].iter().any(|w| cz.contains(w));
+    let iter_form = cz.contains(".all(|x|*x==0)") || cz.contains(".all(|&x|x==0)") || cz.contains(".all(|b|*b==0)") || cz.contains(".all(|&b|b==0)")
+        || cz.contains("!") && (cz.contains(".any(|x|*x!=0)") || cz.contains(".any(|&x|x!=0)") || cz.contains(".any(|b|*b!=0)") || cz.contains(".any(|&b|b!=0)"));
+    let loop_form = cz.contains("in0..size_of::<T>()") && cz.contains("!=0{returnfalse;}") && cz.ends_with("true}");
+    let check_zeroed = cz.contains("u8") && only_zero_lits && span_ok && (iter_form || loop_form);
+    // take_inner: the old content is moved out and the slot is overwritten with zeros
+    let ti = &text["take_inner"].0;
+    let take_inner = ti.contains("MaybeUninit::<T>::zeroed()") || ti.contains("MaybeUninit::zeroed()");
+    let take_inner = take_inner && ti.contains("assume_init()") && (ti.contains("mem::replace(") || ti.contains("replace(&mut") || (ti.contains("read(") && ti.contains("write(") && ti.find("read(") < ti.find("write(")));
+    // inner_duplicate: a bitwise read that leaves the cell as it is
+    let du = &text["inner_duplicate"].0;
+    let duplicate = (du.contains("assume_init_read()") || du.contains("ptr::read(") || du.contains(".read()")) && !["zeroed", "write", "replace(", "take(", "swap("].iter().any(|w| du.contains(w));
+    // Drop: the value is destroyed unless the cell is all zeros
+    let dr = &text["drop"].0;
+    let destroys = dr.contains("assume_init_drop()") || dr.contains("drop_in_place(");
+    let guarded = dr.contains("if!UnsafeSyncCell::check_zeroed(") || dr.contains("if!Self::check_zeroed(") || dr.contains("if!UnsafeSyncCell::<T>::check_zeroed(")
+        || ((dr.contains("ifUnsafeSyncCell::check_zeroed(") || dr.contains("ifSelf::check_zeroed(")) && (dr.contains("){return;}") || dr.contains("){return}") || dr.contains("){}else{")));
+    let drop_ok = destroys && guarded && dr.contains("self.0");
+    // copy_from_slice_unchecked(src, dst): all of `src`, from its start to the start of `dst`
+    let cp = &text["copy"].0;
+    let copy_ok = (cp.contains("copy_nonoverlapping(src.as_ptr(),dst.as_mut_ptr(),src.len())") || cp.contains("dst.copy_from_slice(src)")) && int_literals(cp).is_empty();
+    let _ = has;
+    o.push_str(&format!("def cellFacts : CellFacts := {{ checkZeroedAllBytes := {check_zeroed}, takeInnerLeavesZeros := {take_inner}, duplicateLeavesCell := {duplicate}, dropSkipsZeroed := {drop_ok}, copyWholeSlice := {copy_ok} }}\n"));
     Ok(o)
 }
 
@@ -627,7 +692,17 @@ fn vmem_calls(src: &mut Src) -> Result<String, String> {
         .filter(|f| f.sig.ident == "new" && f.attrs.iter().any(|a| quote::quote!(#a).to_string().replace(' ', "") == "#[cfg(feature=\"vmem\")]"))
         .map(|f| { let b = &f.block; quote::quote!(#b).to_string().replace(' ', "") }).collect();
     if news.len() != 1 { return Err("HeapStorage::new (vmem) not found".into()); }
-    o.push_str(&format!("def vmemStorageNew : String := \"{}\"\n", news[0].replace('"', "'")));
+    let t = news[0].replace('"', "'");
+    o.push_str(&format!("-- HeapStorage::new (vmem): {t}\n"));
+    // shape facts: the mapping is built from the source (`vmem_helper::new(&value)`), the recorded length is the source's,
+    // and the source box is freed as `MaybeUninit` cells (deallocated, items not destroyed: they were copied into the mapping)
+    let maps = t.matches("vmem_helper::new(&value)").count() == 1 && !t.contains("vmem_helper::new(&value[");
+    let len_direct = t.contains("len:value.len()") || (t.contains("letlen=value.len();") && (t.contains("len,") || t.contains("len}") || t.contains("len:len")));
+    let no_lits = int_literals(&t).is_empty();
+    let frees = t.contains("drop(") && t.contains("transmute::<Box<[UnsafeSyncCell<T>]>,Box<[core::mem::MaybeUninit<UnsafeSyncCell<T>>]>>(value)")
+        || t.contains("drop(") && t.contains("transmute::<Box<[UnsafeSyncCell<T>]>,Box<[MaybeUninit<UnsafeSyncCell<T>>]>>(value)");
+    let no_leak = !t.contains("forget(") && !t.contains("ManuallyDrop") && !t.contains("Box::leak") && !t.contains("into_raw");
+    o.push_str(&format!("def vmemNewFacts : VmemNewFacts := {{ mapsSource := {maps}, lenIsSourceLen := {}, freesSourceWithoutDestroying := {} }}\n", len_direct && no_lits, frees && no_leak));
     Ok(o)
 }
 
@@ -715,13 +790,81 @@ fn construction(src: &mut Src) -> Result<String, String> {
         let file = src.file(path)?.clone();
         let f = find_fn(&file, owner, "_from").ok_or(format!("`_from` of {owner} not found"))?;
         let b = f.block;
-        let t = quote::quote!(#b).to_string().replace(' ', "");
-        let zero = |fld: &str| t.contains(&format!("{fld}:CachePadded::new(0.into())")) || t.contains(&format!("{fld}:0.into()"));
-        let falsy = |fld: &str| t.contains(&format!("{fld}:AtomicBool::default()")) || t.contains(&format!("{fld}:false.into()")) || t.contains(&format!("{fld}:AtomicBool::new(false)"));
+        // the struct literal the constructor ends in, read field by field; locals and one level of associated helper are looked through
+        let mut lets: std::collections::HashMap<String, Expr> = std::collections::HashMap::new();
+        let mut asserts = false;
+        let nonempty = |t: &str, v: &str| t == format!("assert!({v}.len()>0);") || t == format!("assert!({v}.len()!=0);") || t == format!("assert!(0<{v}.len());") || t == format!("assert_ne!({v}.len(),0);");
+        let mut lit: Option<&syn::ExprStruct> = None;
+        for st in &b.stmts {
+            let t = quote::quote!(#st).to_string().replace(' ', "");
+            if nonempty(&t, "value") { asserts = true; }
+            match st {
+                Stmt::Local(l) => { if let (syn::Pat::Ident(i), Some(init)) = (&l.pat, &l.init) { lets.insert(i.ident.to_string(), (*init.expr).clone()); } }
+                Stmt::Expr(Expr::Struct(sl), None) => lit = Some(sl),
+                _ => {}
+            }
+        }
+        let lit = lit.ok_or(format!("`_from` of {owner} does not end in a struct literal"))?;
+        fn unwrap_cell(e: &Expr) -> &Expr {
+            // CachePadded::new(x), AtomicUsize::new(x), UnsafeCell::new(x), Cell::new(x), x.into(), (x)
+            match e {
+                Expr::Paren(p) => unwrap_cell(&p.expr),
+                Expr::Call(c) if c.args.len() == 1 => { let f = q(&c.func); if ["CachePadded::new", "AtomicUsize::new", "AtomicBool::new", "UnsafeCell::new", "Cell::new"].iter().any(|w| f.ends_with(w)) || f.ends_with("::from") { unwrap_cell(&c.args[0]) } else { e } }
+                Expr::MethodCall(m) if m.method == "into" && m.args.is_empty() => unwrap_cell(&m.receiver),
+                _ => e,
+            }
+        }
+        let konst = |e: &Expr| -> String {
+            let e = unwrap_cell(e);
+            let t = q(e);
+            if t == "0" || t == "0usize" || t == "AtomicUsize::default()" || t == "usize::default()" { "0".into() }
+            else if t == "false" || t == "AtomicBool::default()" || t == "bool::default()" { "false".into() }
+            else if t == "Default::default()" { "default".into() } else { t }
+        };
+        let field = |name: &str| -> Option<Expr> {
+            for fv in &lit.fields { if let syn::Member::Named(n) = &fv.member { if n == name {
+                let mut e = fv.expr.clone();
+                for _ in 0..3 { let t = q(&e); match lets.get(&t) { Some(v) => e = v.clone(), None => break } }
+                return Some(e);
+            } } }
+            None
+        };
+        let is = |name: &str, want: &[&str]| field(name).map(|e| want.contains(&konst(&e).as_str())).unwrap_or(false);
+        // inner_len: NonZeroUsize::new(value.len()).unwrap(), possibly through an associated helper taking `&value` / `value.len()`
+        let mut len_ok = false;
+        let mut len_panics_on_zero = false;
+        if let Some(e) = field("inner_len") {
+            let t = q(&e);
+            let direct = |t: &str, v: &str| -> (bool, bool) {
+                for suf in [".unwrap()", ".expect("] { if let Some(i) = t.find(suf) { if &t[..i] == format!("NonZeroUsize::new({v})") { return (true, true); } } }
+                if t == format!("NonZeroUsize::new_unchecked({v})") { return (true, false); }
+                (false, false)
+            };
+            let (ok, pz) = direct(&t, "value.len()");
+            if ok { len_ok = true; len_panics_on_zero = pz; }
+            else if let Expr::Call(c) = &e {
+                let fname = q(&c.func);
+                if let (Some(h), 1) = (fname.strip_prefix("Self::"), c.args.len()) {
+                    if let Some(hf) = find_fn(&file, owner, h) {
+                        let arg = q(&c.args[0]);
+                        let par = hf.params.first().cloned().unwrap_or_default();
+                        let what = if arg == "&value" { format!("{par}.len()") } else if arg == "value.len()" { par.clone() } else { String::new() };
+                        if !what.is_empty() {
+                            for st in &hf.block.stmts {
+                                let t = quote::quote!(#st).to_string().replace(' ', "");
+                                if arg == "&value" && nonempty(&t, &par) { asserts = true; }
+                                if arg == "value.len()" && (t == format!("assert!({par}>0);") || t == format!("assert!({par}!=0);")) { asserts = true; }
+                            }
+                            if let Some(Stmt::Expr(te, None)) = hf.block.stmts.last() { let (ok, pz) = direct(&q(te), &what); len_ok = ok; len_panics_on_zero = pz; }
+                        }
+                    }
+                }
+            }
+        }
         o.push_str(&format!("def {lean} : BufInit := {{ idxZero := {}, flagsFalse := {}, counterZero := {}, lenIsStorageLen := {}, refusesEmpty := {} }}\n",
-            zero("prod_idx") && zero("work_idx") && zero("cons_idx"), falsy("prod_alive") && falsy("work_alive") && falsy("cons_alive"),
-            t.contains("alive_iters:AtomicUsize::new(0)") || t.contains("alive_iters:0.into()"),
-            t.contains("inner_len:NonZeroUsize::new(value.len()).unwrap()"), t.contains("assert!(value.len()>0);")));
+            is("prod_idx", &["0", "default"]) && is("work_idx", &["0", "default"]) && is("cons_idx", &["0", "default"]),
+            is("prod_alive", &["false", "default"]) && is("work_alive", &["false", "default"]) && is("cons_alive", &["false", "default"]),
+            is("alive_iters", &["0", "default"]), len_ok, asserts || (len_ok && len_panics_on_zero)));
     }
     // (3) fresh iterators start at index 0 with nothing remembered
     let mut fresh = vec![];
@@ -733,22 +876,56 @@ fn construction(src: &mut Src) -> Result<String, String> {
         fresh.push(t.contains("index:0,") && t.contains("cached_avail:0,"));
     }
     o.push_str(&format!("def iterNewZero : List Bool := [{}]\n", fresh.iter().map(|b| b.to_string()).collect::<Vec<_>>().join(", ")));
-    // (4) lengths: From<Vec<T>> for HeapStorage, get_range_max (both configurations)
+    // (4) lengths: From<Vec<T>> for HeapStorage, get_range_max (both configurations), the heap buffer constructors
     let file = src.file("src/ring_buffer/storage/heap/mod.rs")?.clone();
     let f = find_fn(&file, "From<Vec<T>>forHeapStorage<T>", "from").ok_or("From<Vec<T>> for HeapStorage<T> not found")?;
     let b = f.block;
-    o.push_str(&format!("def pinHeapFromVec : String := \"{}\"\n", quote::quote!(#b).to_string().replace(' ', "")));
+    let t = quote::quote!(#b).to_string().replace(' ', "");
+    o.push_str(&format!("-- From<Vec<T>> for HeapStorage: {t}\n"));
+    // the whole vector becomes the boxed slice handed to the storage
+    let boxed = ["value.into_boxed_slice()", "Box::<[T]>::from(value)", "Box::from(value)", "value.into()", "Box::<[UnsafeSyncCell<T>]>::from(value)"];
+    let from_vec = boxed.iter().any(|x| t == format!("{{Self::from({x})}}") || t == format!("{{Self::new({x})}}") || t == format!("{{HeapStorage::from({x})}}") || t == format!("{{HeapStorage::new({x})}}"));
     let file = src.file("src/ring_buffer/storage/heap/rb.rs")?.clone();
-    let f = find_fn(&file, "", "get_range_max").ok_or("get_range_max not found")?;
-    let b = f.block;
-    o.push_str(&format!("def pinRangeMax : String := \"{}\"\n", quote::quote!(#b).to_string().replace(' ', "").replace('"', "'")));
+    // get_range_max: one function with cfg'd statements, or one function per configuration
+    let mut range = [String::new(), String::new()]; // [vmem, plain]
+    let cfg_of = |attrs: &[syn::Attribute]| -> Option<bool> { let a: String = attrs.iter().map(|a| quote::quote!(#a).to_string().replace(' ', "")).collect(); if a.contains("cfg(feature=\"vmem\")") { Some(true) } else if a.contains("cfg(not(feature=\"vmem\"))") { Some(false) } else { None } };
+    for it in &file.items { if let syn::Item::Fn(g) = it { if g.sig.ident == "get_range_max" {
+        let fn_cfg = cfg_of(&g.attrs);
+        for (k, vm) in [(0usize, true), (1usize, false)] {
+            if fn_cfg.map(|c| c != vm).unwrap_or(false) { continue; }
+            let mut val = String::new();
+            for st in &g.block.stmts {
+                let (attrs, txt): (Vec<syn::Attribute>, String) = match st {
+                    Stmt::Expr(Expr::Return(r), _) => (r.attrs.clone(), r.expr.as_ref().map(|e| q(e)).unwrap_or_default()),
+                    Stmt::Expr(e, None) => (match e { Expr::Block(b) => b.attrs.clone(), Expr::Path(p) => p.attrs.clone(), Expr::Call(c) => c.attrs.clone(), _ => vec![] }, q(e)),
+                    _ => { val = format!("?{}", quote::quote!(#st).to_string().replace(' ', "")); break; }
+                };
+                if cfg_of(&attrs).map(|c| c != vm).unwrap_or(false) { continue; }
+                // attributes are part of the quoted text of an expression: drop them
+                let txt = match txt.rfind(']') { Some(i) if txt.starts_with("#[") => txt[i + 1..].to_string(), _ => txt };
+                val = txt.trim_start_matches('{').trim_end_matches('}').trim_start_matches("return").trim_end_matches(';').to_string();
+                break;
+            }
+            range[k] = val;
+        }
+    } } }
+    o.push_str(&format!("-- get_range_max: vmem => {} ; otherwise => {}\n", range[0], range[1]));
+    let range_vm = range[0].ends_with("vmem_helper::get_page_size_mul(capacity)") || range[0] == "get_page_size_mul(capacity)";
+    let range_plain = range[1] == "capacity";
     let body = macro_body_items(&file, "impl_rb")?;
-    let mut pins = vec![];
+    let mut ctor = std::collections::HashMap::new();
     for it in &body.items { if let syn::Item::Impl(i) = it { for ii in &i.items { if let syn::ImplItem::Fn(f) = ii {
         let n = f.sig.ident.to_string();
-        if n == "from" || n == "default" || n == "new_zeroed" { let b = &f.block; pins.push(format!("(\"{n}\", \"{}\")", quote::quote!(#b).to_string().replace(' ', "").replace('"', "'"))); }
+        if n == "from" || n == "default" || n == "new_zeroed" { let b = &f.block; let t = quote::quote!(#b).to_string().replace(' ', "").replace('"', "'"); o.push_str(&format!("-- {n}: {t}\n")); ctor.insert(n, t); }
     } } } }
-    o.push_str(&format!("def pinHeapRbCtors : List (String × String) := [{}]\n", pins.join(", ")));
+    let g = |k: &str| ctor.get(k).cloned().unwrap_or_default();
+    let one_range = |t: &str| t.matches("get_range_max(capacity)").count() == 1 && int_literals(t).iter().all(|l| l == "0");
+    let from_ok = ["{Self::_from(HeapStorage::from(value))}", "{Self::_from(value.into())}", "{Self::_from(HeapStorage::<T>::from(value))}"].contains(&g("from").as_str());
+    let nz = g("new_zeroed");
+    let new_zeroed_ok = one_range(&nz) && nz.contains("0..get_range_max(capacity)") && nz.contains("UnsafeSyncCell::new_zeroed()") && nz.contains("Self::_from(") && !nz.contains(".take(") && !nz.contains(".skip(") && !nz.contains(".step_by(");
+    let df = g("default");
+    let default_ok = one_range(&df) && (df.contains("vec![T::default();get_range_max(capacity)]") || (df.contains("0..get_range_max(capacity)") && df.contains("T::default()"))) && (df.contains("Self::from(") || df.contains("Self::_from("));
+    o.push_str(&format!("def ctorFacts : CtorFacts := {{ fromVecKeepsAll := {from_vec}, rangeMaxVmemIsPageMultiple := {range_vm}, rangeMaxPlainIsCapacity := {range_plain}, fromWrapsStorage := {from_ok}, newZeroedHasRangeMax := {new_zeroed_ok}, defaultHasRangeMax := {default_ok} }}\n"));
     Ok(o)
 }
 
@@ -916,7 +1093,29 @@ fn loops(src: &mut Src) -> Result<String, String> {
     impl<'ast> Visit<'ast> for L {
         fn visit_expr_while(&mut self, e: &'ast syn::ExprWhile) { self.kinds.push("while"); syn::visit::visit_expr_while(self, e); }
         fn visit_expr_loop(&mut self, e: &'ast syn::ExprLoop) { self.kinds.push("loop"); syn::visit::visit_expr_loop(self, e); }
-        fn visit_expr_for_loop(&mut self, e: &'ast syn::ExprForLoop) { self.kinds.push("for"); syn::visit::visit_expr_for_loop(self, e); }
+        fn visit_expr_for_loop(&mut self, e: &'ast syn::ExprForLoop) {
+            // a `for` over a closed range or over (zipped / enumerated) slices ends by itself; over anything else it may not
+            fn bounded(e: &Expr) -> bool {
+                match e {
+                    Expr::Paren(p) => bounded(&p.expr),
+                    Expr::Reference(r) => bounded(&r.expr),
+                    Expr::Range(r) => r.start.is_some() && r.end.is_some(),
+                    Expr::Path(_) | Expr::Field(_) => true,
+                    Expr::MethodCall(m) => {
+                        let n = m.method.to_string();
+                        match n.as_str() {
+                            "iter" | "iter_mut" | "into_iter" | "chunks" | "chunks_exact" | "chunks_mut" | "windows" => matches!(&*m.receiver, Expr::Path(_) | Expr::Field(_) | Expr::Paren(_) | Expr::Reference(_) | Expr::Range(_)) && bounded(&m.receiver),
+                            "enumerate" | "rev" | "skip" | "take" | "copied" | "cloned" | "step_by" => n == "take" || bounded(&m.receiver),
+                            "zip" => bounded(&m.receiver) || m.args.first().map(bounded).unwrap_or(false),
+                            _ => false,
+                        }
+                    }
+                    _ => false,
+                }
+            }
+            self.kinds.push(if bounded(&e.expr) { "for" } else { "for?" });
+            syn::visit::visit_expr_for_loop(self, e);
+        }
     }
     struct F<'a> { rel: String, out: &'a mut Vec<String> }
     impl<'a, 'ast> Visit<'ast> for F<'a> {
@@ -932,7 +1131,9 @@ fn loops(src: &mut Src) -> Result<String, String> {
         let _ = v.rel;
     }
     out.sort(); out.dedup();
-    Ok(format!("def loops : List (String × String) := [{}]\n", out.join(", ")))
+    // functions whose every loop is a `for` over a closed range / slices are listed apart: they end by themselves
+    let (b, u): (Vec<String>, Vec<String>) = out.into_iter().partition(|x| { let k = x.rsplit(", \"").next().unwrap_or("").trim_end_matches("\")"); k.split('+').all(|p| p == "for") });
+    Ok(format!("def loops : List (String × String) := [{}]\ndef boundedLoops : List (String × String) := [{}]\n", u.join(", "), b.join(", ")))
 }
 
 pub fn table_items(src: &mut Src, items: &mut Vec<Item>) {
